@@ -1019,6 +1019,7 @@ class Interp:
             order = self.iter_order(src)
             return [Agg('tuple', None, [k, v]) if src.kind.endswith('Map') else k for k, v in order]
         if isinstance(src, RVec): return list(src.items)
+        if isinstance(src, Agg) and src.name == 'array': return list(src.fields)
         if isinstance(src, Slice): return list(src.vec.items[src.lo:src.hi])
         if isinstance(src, SeqIter):
             r = src.items[src.i:]; src.i = len(src.items); return r
@@ -1045,6 +1046,9 @@ class Interp:
             return SeqIter(list(x.items))
         if isinstance(x, Slice): return SeqIter([Ptr(Cell(x.vec)).sub(i) for i in range(x.lo, x.hi)])
         if isinstance(x, Agg) and x.name == 'Range': return SeqIter(list(range(x.fields[0], x.fields[1])))
+        if isinstance(x, Agg) and x.name == 'array':
+            if byref: return SeqIter([Ptr(Cell(x)).sub(i) for i in range(len(x.fields))])
+            return SeqIter(list(x.fields))
         return v
     def collect(self, it, target):
         items = self.drain(it)
@@ -1149,6 +1153,27 @@ class Interp:
             for x in self.drain(it):
                 if self.truth(self.call_value(args[1], [Ptr(Cell(x))])): return Agg('Option', 1, [x])
             return Agg('Option', 0, [])
+        if meth == 'find_map':
+            for x in self.drain(it):
+                r = self.call_value(args[1], [x])
+                if r.variant == 1: return r
+            return Agg('Option', 0, [])
+        if meth in ('position', 'rposition'):
+            xs = self.drain(it); idx = range(len(xs)) if meth == 'position' else reversed(range(len(xs)))
+            for i_ in idx:
+                if self.truth(self.call_value(args[1], [xs[i_]])): return Agg('Option', 1, [i_])
+            return Agg('Option', 0, [])
+        if meth in ('take_while', 'skip_while', 'map_while'):
+            xs = self.drain(it); out = []; i_ = 0
+            if meth == 'map_while':
+                for x in xs:
+                    r = self.call_value(args[1], [x])
+                    if r.variant != 1: break
+                    out.append(r.fields[0])
+                return SeqIter(out)
+            while i_ < len(xs) and self.truth(self.call_value(args[1], [Ptr(Cell(xs[i_]))])): i_ += 1
+            return SeqIter(xs[:i_] if meth == 'take_while' else xs[i_:])
+        if meth in ('copied', 'cloned'): return SeqIter([x.get() if isinstance(x, Ptr) else x for x in self.drain(it)])
         if meth == 'fold':
             acc = args[1]
             for x in self.drain(it): acc = self.call_value(args[2], [acc, x])
